@@ -2,7 +2,7 @@
 
 PROP = dict(
     level="proof",
-    lean_modules=['PopsModel.Props.C03'],
+    lean_modules=['PopsModel.Props.C03', 'PopsModel.Props.NonVacuous.Host'],
     theorems=['Pops.C03_totals_step', 'Pops.C03_totals_move', 'Pops.C03_cohorts_step_partial', 'Pops.C03_cohorts_full_fails', 'Pops.C03_mortality_never_fails', 'Pops.C03_cohorts_move'],
     commands=[],
     runs={
